@@ -298,16 +298,20 @@ func exploreScenarioDL(c *ev.Ctx, sc *Scenario, maxBound int, dl time.Time) expl
 	var total exploreStats
 	total.BoundDone = -1
 	failed := map[string]bool{}
+	var last *explorer // the explorer of the highest bound reached: its visited set is what is reported
+	defer func() {
+		if last != nil {
+			c.Add("executions_pruned_at_a_visited_state", last.pruned)
+			c.Add("distinct_states", int64(len(last.visited)))
+		}
+	}()
 	for b := 0; b <= maxBound; b++ {
 		st := exploreStats{}
 		e := &explorer{c: c, sc: sc, bound: b, st: &st, failed: failed, dl: dl}
 		if !noPrune {
 			e.visited = map[uint64]int{}
 		}
-		defer func(e *explorer) {
-			c.Add("executions_pruned_at_a_visited_state", e.pruned)
-			c.Add("distinct_states", int64(len(e.visited)))
-		}(e)
+		last = e
 		if b < maxBound {
 			// lower bounds are re-explored by the next iteration; run them only to find the
 			// counterexample with the fewest preemptions first
@@ -342,8 +346,13 @@ func exploreScenarioDL(c *ev.Ctx, sc *Scenario, maxBound int, dl time.Time) expl
 	}
 	if c.Shard != 0 && total.Executions > 0 {
 		total.Executions-- // the root execution is run by every shard but counted once
+		if total.Concurrent > 0 {
+			total.Concurrent--
+		}
 	}
 	c.Add("executions", total.Executions)
+	c.Eval(total.Executions)
+	c.Distinct(total.Concurrent)
 	c.Add("executions_"+sc.Name, total.Executions)
 	c.Add("executions_with_2+_enabled_threads", total.Concurrent)
 	c.Add("transitions", total.Transitions)
@@ -382,6 +391,94 @@ func replayScenario(c *ev.Ctx, scs []*Scenario) {
 		return
 	}
 	c.Machinery("unknown scenario %q", k.Scenario)
+}
+
+// exploreBoundsFirst explores a set of scenarios with the bound as the OUTER loop: every scenario
+// is completed at bound 0, then every scenario at bound 1, ... up to its own target, so that a
+// time cap cuts the highest bound of the last scenarios instead of starving whole scenarios.
+// A scenario with a (hard) finding is not explored at higher bounds.
+func exploreBoundsFirst(c *ev.Ctx, scs []*Scenario, target func(*Scenario) int) {
+	type rec struct {
+		done   int
+		st     exploreStats
+		states int
+		pruned int64
+		failed map[string]bool
+		capped bool
+	}
+	recs := make([]*rec, len(scs))
+	maxT := 0
+	for i, sc := range scs {
+		recs[i] = &rec{done: -1, failed: map[string]bool{}}
+		if t := target(sc); t > maxT {
+			maxT = t
+		}
+	}
+	capped := false
+	for b := 0; b <= maxT && !capped; b++ {
+		for i, sc := range scs {
+			r := recs[i]
+			if target(sc) < b || r.done < b-1 {
+				continue
+			}
+			hard := false
+			for k := range r.failed {
+				if strings.HasPrefix(k, sc.Name+": ") {
+					hard = true
+				}
+			}
+			if hard {
+				continue
+			}
+			if !c.Deadline.IsZero() && time.Now().After(c.Deadline) {
+				capped = true
+				r.capped = true
+				break
+			}
+			st := exploreStats{}
+			e := &explorer{c: c, sc: sc, bound: b, st: &st, failed: r.failed, dl: c.Deadline}
+			if !noPrune {
+				e.visited = map[uint64]int{}
+			}
+			t0 := time.Now()
+			e.explore(nil, 0, nil)
+			c.Add("ms_"+sc.Name, time.Since(t0).Milliseconds())
+			if st.CapHit {
+				capped = true
+				r.capped = true
+				c.Add("executions_in_unfinished_bounds", st.Executions)
+				break
+			}
+			r.done, r.st, r.states, r.pruned = b, st, len(e.visited), e.pruned
+			c.Add("executions_all_bounds", st.Executions)
+		}
+	}
+	for i, sc := range scs {
+		r := recs[i]
+		ex := r.st.Executions
+		conc := r.st.Concurrent
+		if c.Shard != 0 && ex > 0 {
+			ex--
+			if conc > 0 {
+				conc--
+			}
+		}
+		c.Add("executions", ex)
+		c.Eval(ex)
+		c.Distinct(conc)
+		c.Add("executions_"+sc.Name, ex)
+		c.Add("executions_with_2+_enabled_threads", conc)
+		c.Add("transitions", r.st.Transitions)
+		c.Add("distinct_states", int64(r.states))
+		c.Add("executions_pruned_at_a_visited_state", r.pruned)
+		c.Max("max_choice_points_"+sc.Name, int64(r.st.MaxPoints))
+		c.Max("max_threads", int64(r.st.MaxThreads))
+		c.Max("negbound_"+sc.Name, int64(10-r.done))
+		c.Flag("exhaustive_within_bound", r.done >= target(sc))
+		if c.Shard == 0 && i%9 == 0 {
+			c.Sample(map[string]interface{}{"scenario": sc.Name, "bound_completed": r.done, "max_choice_points": r.st.MaxPoints, "threads": r.st.MaxThreads, "executions_at_that_bound_in_this_shard": r.st.Executions})
+		}
+	}
 }
 
 // boundsCompleted turns the merged "negbound_" maxima into {scenario: bound completed by every shard}.
